@@ -13,6 +13,7 @@
   (serialisers and the encoder are modelled, but the statements are not proved here).
 -/
 import FFS.Model.AbiIO
+import FFS.Props.C03
 namespace FFS.Props.C11
 open FFS FFS.Model.Abi FFS.Gen.AbiCodecFacts
 
@@ -467,6 +468,320 @@ theorem darr_bounded (t : Ty) (block : Bytes) (hs hp r : Nat) (cs : List CV)
     · cases h
   · cases h
   · cases h
+
+/-! ### a returned tree can always be serialised -/
+
+theorem decodeRepeat_all (Q : CV → Prop) (dec : Nat → Nat → Outcome (Nat × CV))
+    (hd : ∀ a b r v, dec a b = .ok (r, v) → Q v) :
+    ∀ (n hs hp r : Nat) (cs : List CV), decodeRepeat dec n hs hp = .ok (r, cs) → ∀ c ∈ cs, Q c := by
+  intro n
+  induction n with
+  | zero =>
+    intro hs hp r cs h
+    simp only [decodeRepeat] at h
+    injection h with h; injection h with _ h2
+    subst h2; intro c hc; simp at hc
+  | succ k ih =>
+    intro hs hp r cs h
+    simp only [decodeRepeat] at h
+    cases hdec : dec hs hp with
+    | err => rw [hdec] at h; cases h
+    | panic => rw [hdec] at h; cases h
+    | ok p =>
+      obtain ⟨r0, c0⟩ := p
+      rw [hdec] at h
+      simp only [] at h
+      cases hrest : decodeRepeat dec k hs (hp + r0) with
+      | err => rw [hrest] at h; cases h
+      | panic => rw [hrest] at h; cases h
+      | ok q =>
+        obtain ⟨rs, cs'⟩ := q
+        rw [hrest] at h
+        simp only [] at h
+        injection h with h; injection h with _ h2
+        subst h2
+        intro c hc
+        simp only [List.mem_cons] at hc
+        rcases hc with hc | hc
+        · rw [hc]; exact hd hs hp r0 c0 hdec
+        · exact ih hs (hp + r0) rs cs' hrest c hc
+
+theorem decodeRepeatDyn_all (Q : CV → Prop) (dec : Nat → Nat → Outcome (Nat × CV)) (over : Bool)
+    (hd : ∀ a b r v, dec a b = .ok (r, v) → Q v) :
+    ∀ (n hs hp r : Nat) (cs : List CV), decodeRepeatDyn dec over n hs hp = .ok (r, cs) → ∀ c ∈ cs, Q c := by
+  intro n
+  induction n with
+  | zero =>
+    intro hs hp r cs h
+    simp only [decodeRepeatDyn] at h
+    injection h with h; injection h with _ h2
+    subst h2; intro c hc; simp at hc
+  | succ k ih =>
+    intro hs hp r cs h
+    simp only [decodeRepeatDyn] at h
+    cases hdec : dec hs hp with
+    | err => rw [hdec] at h; cases h
+    | panic => rw [hdec] at h; cases h
+    | ok p =>
+      obtain ⟨r0, c0⟩ := p
+      rw [hdec] at h
+      simp only [] at h
+      split at h
+      · cases h
+      · cases hrest : decodeRepeatDyn dec over k hs (hp + r0) with
+        | err => rw [hrest] at h; cases h
+        | panic => rw [hrest] at h; cases h
+        | ok q =>
+          obtain ⟨rs, cs'⟩ := q
+          rw [hrest] at h
+          simp only [] at h
+          injection h with h; injection h with _ h2
+          subst h2
+          intro c hc
+          simp only [List.mem_cons] at hc
+          rcases hc with hc | hc
+          · rw [hc]; exact hd hs hp r0 c0 hdec
+          · exact ih hs (hp + r0) rs cs' hrest c hc
+
+/-- the elementary decoders return the Go value kind the serializer expects for that type -/
+theorem decodeElem_serialisable (cfg : SerCfg) (info : ElemInfo) (sfx : String) (m : Nat) (hok : C03.ElemOK info sfx m)
+    (block : Bytes) (hs hp : Nat) (v : CV) (h : decodeElem info m block hs hp = .ok v) :
+    ∃ j, serElem cfg info v = .ok j := by
+  have hkind : (codecOf info.dec = .sint ∨ codecOf info.dec = .uint → ∃ z, v = .int z) ∧
+      (codecOf info.dec = .bytes → ∃ b, v = .bytes b) ∧ (codecOf info.dec = .string → ∃ b, v = .str b) := by
+    unfold decodeElem at h
+    refine ⟨?_, ?_, ?_⟩
+    · intro hc
+      rcases hc with hc | hc <;> rw [hc] at h <;> simp only [] at h
+      · split at h
+        · cases h
+        · cases hsl : slice? block hp (hp + 32) with
+          | ok w => rw [hsl] at h; simp only [Outcome.bind] at h; injection h with h; exact ⟨_, h.symm⟩
+          | err => rw [hsl] at h; cases h
+          | panic => rw [hsl] at h; cases h
+      · split at h
+        · cases h
+        · cases hsl : slice? block (hp + (32 - m / 8)) (hp + 32) with
+          | ok w => rw [hsl] at h; simp only [Outcome.bind] at h; injection h with h; exact ⟨_, h.symm⟩
+          | err => rw [hsl] at h; cases h
+          | panic => rw [hsl] at h; cases h
+    · intro hc
+      rw [hc] at h
+      simp only [] at h
+      split at h
+      · split at h
+        · split at h
+          · split at h
+            · cases h
+            · injection h with h; exact ⟨_, by rw [← h]; simp; rfl⟩
+          · cases h
+          · cases h
+        · cases h
+        · cases h
+      · split at h
+        · cases h
+        · injection h with h; exact ⟨_, by rw [← h]; simp; rfl⟩
+    · intro hc
+      rw [hc] at h
+      simp only [] at h
+      split at h
+      · split at h
+        · split at h
+          · split at h
+            · cases h
+            · injection h with h; exact ⟨_, by rw [← h]; simp; rfl⟩
+          · cases h
+          · cases h
+        · cases h
+        · cases h
+      · split at h
+        · cases h
+        · injection h with h; exact ⟨_, by rw [← h]; simp; rfl⟩
+  rcases hok with ⟨hn, hc, _⟩ | ⟨hn, hc, _⟩ | ⟨hn, hc, _, hm⟩ | ⟨hn, hc, _⟩ | ⟨hn, hc, _⟩ | ⟨hn, hc, _⟩ | ⟨hn, hc, _⟩
+  · obtain ⟨z, hz⟩ := hkind.1 (Or.inl hc); subst hz; exact ⟨serInt cfg.ints z, by simp [serElem, hn]⟩
+  · obtain ⟨z, hz⟩ := hkind.1 (Or.inr hc); subst hz; exact ⟨serInt cfg.ints z, by simp [serElem, hn]⟩
+  · -- address: the value was read from 20 bytes, so it fills 20 bytes again
+    subst hm
+    unfold decodeElem at h
+    rw [hc] at h
+    simp only [] at h
+    split at h
+    · cases h
+    · cases hsl : slice? block (hp + (32 - 160 / 8)) (hp + 32) with
+      | err => rw [hsl] at h; cases h
+      | panic => rw [hsl] at h; cases h
+      | ok w =>
+        rw [hsl] at h
+        simp only [Outcome.bind] at h
+        injection h with h
+        subst h
+        have hwl : w.length ≤ 20 := by
+          unfold slice? at hsl
+          split at hsl
+          · injection hsl with hsl; rw [← hsl]; simp; omega
+          · cases hsl
+        have hlt : fromBE w < 256 ^ 20 :=
+          Nat.lt_of_lt_of_le (fromBE_lt w) (Nat.pow_le_pow_right (by decide) hwl)
+        have hfill : fillBytes? (fromBE w) 20 = .ok (toBE 20 (fromBE w)) := by
+          unfold fillBytes?; rw [if_pos hlt]
+        cases ha : cfg.addr
+        · exact ⟨serBytes cfg.bytes (toBE 20 (fromBE w)), by simp [serElem, hn, hfill, ha]⟩
+        · exact ⟨.str (asciiBytes (Model.EthTypes.address0xString (toBE 20 (fromBE w)))), by simp [serElem, hn, hfill, ha]⟩
+        · exact ⟨.str (asciiBytes (Model.EthTypes.addressPlainString (toBE 20 (fromBE w)))), by simp [serElem, hn, hfill, ha]⟩
+        · exact ⟨.str (asciiBytes (Model.EthTypes.addressChecksumString (toBE 20 (fromBE w)))), by simp [serElem, hn, hfill, ha]⟩
+  · obtain ⟨z, hz⟩ := hkind.1 (Or.inr hc); subst hz
+    exact ⟨.bool (FFS.Model.Secp.bigInt64 z == 1), by simp [serElem, hn]⟩
+  · obtain ⟨b, hb⟩ := hkind.2.1 hc; subst hb; exact ⟨serBytes cfg.bytes b, by simp [serElem, hn]⟩
+  · obtain ⟨b, hb⟩ := hkind.2.1 hc; subst hb; exact ⟨serBytes cfg.bytes b, by simp [serElem, hn]⟩
+  · obtain ⟨b, hb⟩ := hkind.2.2 hc; subst hb; exact ⟨.str b, by simp [serElem, hn]⟩
+
+
+mutual
+  /-- types whose leaves are table rows (with the decoder the table assigns) and whose tuples name every child -/
+  def TyS : Ty → Prop
+    | .elem info sfx m _ => C03.ElemOK info sfx m
+    | .farr t _ => TyS t
+    | .darr t => TyS t
+    | .tuple names ts => names.length = ts.length ∧ TySs ts
+  def TySs : List Ty → Prop
+    | [] => True
+    | t :: ts => TyS t ∧ TySs ts
+end
+
+theorem outSame_ok (cfg : SerCfg) (t : Ty) : ∀ (cs : List CV), (∀ c ∈ cs, ∃ j, walkOutput cfg t c = .ok j) →
+    ∃ js, outSame cfg t cs = .ok js
+  | [], _ => ⟨[], by rw [outSame]⟩
+  | c :: cs, h => by
+    obtain ⟨j, hj⟩ := h c (by simp)
+    obtain ⟨js, hjs⟩ := outSame_ok cfg t cs (fun x hx => h x (by simp [hx]))
+    exact ⟨j :: js, by rw [outSame, hj]; simp only []; rw [hjs]; rfl⟩
+
+mutual
+  /-- **A returned tree can always be serialised to JSON**: whatever `decode` returns for a valid type, from any bytes,
+      `walkOutput` turns into an output tree in every formatting mode with every serializer (no error, no panic). -/
+  theorem decode_serialisable (cfg : SerCfg) : ∀ (t : Ty) (block : Bytes) (hs hp r : Nat) (v : CV), TyS t →
+      decode t block hs hp = .ok (r, v) → ∃ j, walkOutput cfg t v = .ok j
+    | .elem info sfx m n, block, hs, hp, r, v => by
+      intro ht h
+      rw [TyS] at ht
+      unfold decode at h
+      cases hd : decodeElem info m block hs hp with
+      | err => rw [hd] at h; cases h
+      | panic => rw [hd] at h; cases h
+      | ok v' =>
+        rw [hd] at h
+        simp only [] at h
+        injection h with h; injection h with _ h2
+        subst h2
+        obtain ⟨j, hj⟩ := decodeElem_serialisable cfg info sfx m ht block hs hp v' hd
+        exact ⟨j, by rw [walkOutput]; exact hj⟩
+    | .farr t k, block, hs, hp, r, v => by
+      intro ht h
+      rw [TyS] at ht
+      have hch := fun a b r v hh => decode_serialisable cfg t block a b r v ht hh
+      unfold decode at h
+      split at h
+      · split at h
+        · split at h
+          · rename_i hrep
+            injection h with h; injection h with _ h2
+            subst h2
+            obtain ⟨js, hjs⟩ := outSame_ok cfg t _ (decodeRepeat_all _ (decode t block) hch _ _ _ _ _ hrep)
+            exact ⟨.arr js, by rw [walkOutput, hjs]; rfl⟩
+          · cases h
+          · cases h
+        · cases h
+        · cases h
+      · split at h
+        · rename_i hrep
+          injection h with h; injection h with _ h2
+          subst h2
+          obtain ⟨js, hjs⟩ := outSame_ok cfg t _ (decodeRepeat_all _ (decode t block) hch _ _ _ _ _ hrep)
+          exact ⟨.arr js, by rw [walkOutput, hjs]; rfl⟩
+        · cases h
+        · cases h
+    | .darr t, block, hs, hp, r, v => by
+      intro ht h
+      rw [TyS] at ht
+      have hch := fun a b r v hh => decode_serialisable cfg t block a b r v ht hh
+      unfold decode at h
+      split at h
+      · split at h
+        · split at h
+          · rename_i hrep
+            injection h with h; injection h with _ h2
+            subst h2
+            obtain ⟨js, hjs⟩ := outSame_ok cfg t _ (decodeRepeatDyn_all _ (decode t block) _ hch _ _ _ _ _ hrep)
+            exact ⟨.arr js, by rw [walkOutput, hjs]; rfl⟩
+          · cases h
+          · cases h
+        · cases h
+        · cases h
+      · cases h
+      · cases h
+    | .tuple names ts, block, hs, hp, r, v => by
+      intro ht h
+      rw [TyS] at ht
+      have hfin : ∀ cs kvs, outEach cfg names ts cs 0 = .ok kvs → ∃ j, walkOutput cfg (.tuple names ts) (.kids cs) = .ok j := by
+        intro cs kvs hk
+        rw [walkOutput]
+        cases cfg.mode <;> simp only [] <;> rw [hk] <;> exact ⟨_, rfl⟩
+      unfold decode at h
+      split at h
+      · split at h
+        · split at h
+          · rename_i hl
+            injection h with h; injection h with _ h2
+            subst h2
+            obtain ⟨kvs, hk⟩ := decodeList_serialisable cfg ts names block _ _ _ _ 0 ht.1 ht.2 hl
+            exact hfin _ kvs hk
+          · cases h
+          · cases h
+        · cases h
+        · cases h
+      · split at h
+        · rename_i hl
+          injection h with h; injection h with _ h2
+          subst h2
+          obtain ⟨kvs, hk⟩ := decodeList_serialisable cfg ts names block _ _ _ _ 0 ht.1 ht.2 hl
+          exact hfin _ kvs hk
+        · cases h
+        · cases h
+  theorem decodeList_serialisable (cfg : SerCfg) : ∀ (ts : List Ty) (names : List String) (block : Bytes) (hs hp r : Nat)
+      (cs : List CV) (i : Nat), names.length = ts.length → TySs ts → decodeList ts block hs hp = .ok (r, cs) →
+      ∃ kvs, outEach cfg names ts cs i = .ok kvs
+    | [], names, block, hs, hp, r, cs, i => by
+      intro _ _ h
+      simp only [decodeList] at h
+      injection h with h; injection h with _ h2
+      subst h2
+      exact ⟨[], by cases names <;> simp [outEach]⟩
+    | t :: ts, [], block, hs, hp, r, cs, i => by
+      intro hl; simp at hl
+    | t :: ts, nm :: names, block, hs, hp, r, cs, i => by
+      intro hl ht h
+      rw [TySs] at ht
+      simp only [decodeList] at h
+      cases hd : decode t block hs hp with
+      | err => rw [hd] at h; cases h
+      | panic => rw [hd] at h; cases h
+      | ok p =>
+        obtain ⟨r0, c0⟩ := p
+        rw [hd] at h
+        simp only [] at h
+        cases hrest : decodeList ts block hs (hp + r0) with
+        | err => rw [hrest] at h; cases h
+        | panic => rw [hrest] at h; cases h
+        | ok q =>
+          obtain ⟨rs, cs'⟩ := q
+          rw [hrest] at h
+          simp only [] at h
+          injection h with h; injection h with _ h2
+          subst h2
+          obtain ⟨j, hj⟩ := decode_serialisable cfg t block hs hp r0 c0 ht.1 hd
+          obtain ⟨kvs, hk⟩ := decodeList_serialisable cfg ts names block hs (hp + r0) rs cs' (i + 1) (by simpa using hl) ht.2 hrest
+          exact ⟨_, by rw [outEach, hj]; simp only []; rw [hk]; rfl⟩
+end
 
 /-! ### non-vacuity: concrete inputs on which the hypotheses hold (evaluated by the kernel) -/
 def okB {α : Type} : Outcome α → Bool | .ok _ => true | _ => false
